@@ -95,6 +95,32 @@ def switch_effect(switches, call):
     return None
 
 
+def context_switches(m, switches, cls='CSSParser'):
+    """Names of @contextmanager methods that switch the mode on before their yield and off in a
+    `finally` around it: `with self.<name>():` is then an acquire that is released on every exit."""
+    out = set()
+    for q, fn in m.functions():
+        if not q.startswith(cls + '.') or q.count('.') != 1:
+            continue
+        if not any(text(d).endswith('contextmanager') for d in fn.decorator_list):
+            continue
+        for tr in ast.walk(fn):
+            if isinstance(tr, ast.Try) and tr.finalbody and any(isinstance(x, ast.Yield) for st in tr.body for x in ast.walk(st)):
+                before = fn.body[:fn.body.index(tr)] if tr in fn.body else []
+                on = any(isinstance(c, ast.Call) and switch_effect(switches, c) == 'on' for st in before for c in ast.walk(st)) or any(_kind(s) == 'on' for s in _flag_stores(before))
+                off = any(isinstance(c, ast.Call) and switch_effect(switches, c) == 'off' for st in tr.finalbody for c in ast.walk(st)) or any(_kind(s) == 'off' for s in _flag_stores(tr.finalbody))
+                if on and off:
+                    out.add(fn.name)
+    return out
+
+
+def with_switch(ctx, node):
+    """Is this CFG node a `with self.<context switch>():` header?"""
+    if node.kind != 'with':
+        return False
+    return any(isinstance(i.context_expr, ast.Call) and call_name(i.context_expr).startswith('self.') and call_name(i.context_expr)[5:] in ctx for i in node.stmt.items)
+
+
 def pure_switches(switches):
     """Private methods all of whose calls either switch on or switch off (never both in one call)."""
     out = set()
@@ -113,12 +139,17 @@ def r12a(chk, rid='R12.a'):
     if not any('on' in summ[None] for fn, summ in switches.values()) or not any('off' in summ[None] for fn, summ in switches.values()):
         raise AnalysisError('CSSParser: no method stores the parse mode / restores the mode')
     n_fn = 0
+    ctx = context_switches(m, switches)
     for q, fn in m.functions():
         if not q.startswith('CSSParser.') or q.count('.') != 1:
             continue
         if fn.name in pure:
             continue  # the obligation is carried by its callers
         g = cfgmod.CFG(fn, may_raise=_has_call)
+        withs = [n for n in g.nodes if with_switch(ctx, n)]
+        if withs:
+            n_fn += 1
+            chk.ob(rid, PARSE, q, f'error mode switched by `with self.{sorted(ctx)[0]}()`: restored on every exit by the context manager', True)
         on = [n for n in g.nodes if any(switch_effect(switches, c) == 'on' for c in cfgmod.calls_at(n))]
         direct = [n for n in g.nodes if n.kind == 'stmt' and isinstance(n.stmt, ast.Assign) and text(n.stmt.targets[0]) == FLAG]
         if not on and not direct:
@@ -313,6 +344,8 @@ def r12c(chk, rid='R12.c'):
             ok = (rel, q) in STATE_WRITERS[st]
             if st == 'raiseExceptions' and rel == PARSE and q.startswith('CSSParser.') and q.count('.') == 1:
                 ok = True  # every CSSParser method that writes the flag is subject to the pairing rule R12.a
+            if st == 'savedTokens' and rel == PROD and q.startswith('ProdParser.') and q.count('.') == 1:
+                ok = True  # the production parser itself (its private helpers included); the reset is R12.d
             chk.ob(rid, rel, q, f'writes {st}: {text(node)[:70]}', ok,
                    STATE_WRITERS[st].get((rel, q), f'{st} is process-wide state; this function is not one of its sanctioned writers - results of later calls depend on whether it ran'))
     if n < 12:
